@@ -59,6 +59,13 @@ def argOf (args : List (String × J)) (k : String) : Option J := args.lookup k
 /-- `doJoin`: `_chunk_outs` is the list of the chunks' outs, in chunk order -/
 def joinChunkOuts (chunkOuts : List J) : J := .arr chunkOuts
 
+/-- `doJoin` READS every chunk's `_outs` (`none` = the file cannot be read / parsed): the readable
+ones are appended in chunk order and written to `_chunk_outs`; when any read failed the fork
+is `Failed` and the join is NOT launched (`ok = false … if !ok { return Failed }`).  Result: the
+file content and whether the join is launched. -/
+def doJoinRead (reads : List (Option J)) : J × Bool :=
+  (.arr (reads.filterMap id), reads.all Option.isSome)
+
 /-- `doJoin`: `_chunk_defs` is the list of the chunk defs' args, in chunk order -/
 def joinChunkDefs (chunkDefs : List (List (String × J))) : J := .arr (chunkDefs.map .obj)
 
